@@ -114,7 +114,9 @@ def rule_orient(ctx: Ctx) -> List[Ob]:
     loops = [s for s in walk_no_nested(f.node) if isinstance(s, ast.For)]
     need(len(loops) == 1, "initialize_X_and_G: expected one refill loop")
     lp = loops[0]
-    it = lp.iter
+    from ..flow import Expander
+    ex = Expander(ctx, f)
+    it = ex.expand_at(lp.iter, lp.iter)
     need(isinstance(it, ast.Call) and dotted(it.func) == "zip" and len(it.args) == 2 and isinstance(lp.target, ast.Tuple),
          "initialize_X_and_G: refill loop is not `for x, g in zip(<points>, <gradients>)` -- decoder cannot be typed")
     tys = []
@@ -125,13 +127,13 @@ def rule_orient(ctx: Ctx) -> List[Ob]:
         if t is None and not problems:
             raise AnalysisError(f"ORIENT: decoder expression `{short(a)}` cannot be typed")
         tys.append(t)
-        obs.append(ob("ORIENT", f"decoder of the {want} history yields visited points", f, a, ok,
+        obs.append(ob("ORIENT", f"decoder of the {want} history yields visited points", f, lp.iter, ok,
                       (f"typed as {t}" if ok else (problems[0] if problems else f"typed as {t}, not points of {want}")),
                       construct=short(a, 100)))
     # sibling shape: same expression after renaming x->jac, sk->yk
     s0 = src(it.args[0]).replace("checkpoint.x", "checkpoint.jac").replace(".sk", ".yk")
     same = s0 == src(it.args[1])
-    obs.append(ob("ORIENT", "point and gradient decoders are siblings of the same shape", f, it, same,
+    obs.append(ob("ORIENT", "point and gradient decoders are siblings of the same shape", f, lp.iter, same,
                   "identical up to (x, sk) <-> (jac, yk)" if same else f"`{short(it.args[0], 60)}` vs `{short(it.args[1], 60)}`",
                   construct="zip(<X decoder>, <G decoder>)"))
     # fill direction
